@@ -180,6 +180,13 @@ def closing (ns : List Note) (evs : List Ev) : Option Rat :=
   | n0 :: rest, some pl => some (max (pl.1 + 1) (maxOf n0.off (rest.map (·.off)) + 1))
   | _, _ => none
 
+/-- `t` is a moment at or after the release of note `n = ns[i]` at which the pedal value is at or below the
+    threshold, or at which another note of the same pitch (any channel or track) is struck -/
+def Moment (ns : List Note) (cs : List Control) (thr : Int) (i : Nat) (n : Note) (t : Rat) : Prop :=
+  n.off ≤ t ∧
+    ((∃ c, c ∈ cs ∧ c.number = 64 ∧ c.value ≤ thr ∧ c.time = t) ∨
+     (∃ j m, ns[j]? = some m ∧ j ≠ i ∧ m.pitch = n.pitch ∧ m.on = t))
+
 /-- `sound_off` of note `i` after `adjust_offsets_w_sustain` -/
 def soundOffAt (ns : List Note) (cs : List Control) (thr : Int) (i : Nat) : Option Rat :=
   match soundOffs ns cs thr with
